@@ -162,12 +162,24 @@ class Controller:
             task.cancel()
             return
         if entry.get("outcome") == "timeout":
-            # wake up again after the timer fired
+            # wake up again after the enclosing asyncio.timeout fired: the task then no longer waits on this waiter.
+            # (Stepping earlier would hand the next scripted outcome to the *same* await.)
+            self._timed_waiter, self._timer_polls = waiter, 0
             self.loop.call_later(1e-9, self._after_timer)
         else:
             self.loop.call_soon(self.step)
 
     def _after_timer(self):
+        w = getattr(self, "_timed_waiter", None)
+        if w is not None and not self.task.done() and getattr(self.task, "_fut_waiter", None) is w and not w.done():
+            self._timer_polls += 1
+            if self._timer_polls > 100000:
+                self.mismatch = "scripted timeout, but no timer ends the real await"
+                self.task.cancel()
+                return
+            self.loop.call_later(0.05, self._after_timer)  # virtual time: the loop jumps from timer to timer
+            return
+        self._timed_waiter = None
         self.loop.call_soon(self.step)
 
     def _give_up(self):
